@@ -2,6 +2,9 @@ import Gimli.Lemmas.Die
 import Gimli.Lemmas.DieForest
 import Gimli.Lemmas.Abbrev
 import Gimli.Lemmas.UnitHeader
+import Gimli.Lemmas.DieSibling
+import Gimli.Lemmas.DieTree
+import Gimli.Props.C03
 /-!
 # C02 — The DIE forest is reported exactly as encoded, by every navigation API
 
@@ -78,6 +81,51 @@ theorem dfs_cursor_forest (ctx : Ctx) (f : Forest) (hok : ForestOK ctx f) (pad o
   · rw [← hl, List.filter_map]
     rfl
   · exact dfsAll_of_rawAll ctx fuel _ es _ hr (by simp) fuel _ (Nat.le_refl _)
+
+/-- **`sibling_eq`.** Walking a well-formed unit with `next_entry` (to step into a child list) and
+`next_sibling` (to iterate it), recursively, visits exactly the non-null entries of the
+depth-first listing in order, with the same offsets, depths, tags and children flags — whether
+entries carry no `DW_AT_sibling` attribute, a correct one (pointing just behind the entry's
+subtree), or a mixture (`SibOK`: for every entry with the children flag the fast-path target is
+absent or correct). In particular the fast path only jumps forward and keeps the depth. -/
+theorem sibling_eq (ctx : Ctx) (f : Forest) (hok : ForestOK ctx f) (pad off : Nat)
+    (hsib : SibOK ctx off f) (fuel : Nat) (hfuel : count f < fuel) :
+    ∃ es, es.map Entry.item = (listingUnit off f pad).filter (fun i => !i.isNull) ∧
+      siblingAll ctx fuel (Cursor.new (encodeUnit f pad) off) = (es, .ok ()) :=
+  siblingAll_unit ctx f hok pad off hsib fuel hfuel
+
+/-- the single step behind it: from any entry, `next_sibling` ends on that entry's next sibling —
+or on no entry when it was the last of its list — with or without the fast path -/
+theorem next_sibling_step (ctx : Ctx) (d : Node) (kids sibs : Forest) (hok : ForestOK ctx (.node d kids sibs))
+    (off : Nat) (hsib : SibOK ctx off (.node d kids sibs)) (D : Int) (tail : Bytes)
+    (htail : tail = [] ∨ ∃ t, tail = 0 :: t) (c : Cursor) (hc : PosAt ctx c off D tail (.node d kids sibs)) :
+    ∃ c', PosAt ctx c' (if d.children then off + (headBytes d).length + (encode kids).length + 1
+                        else off + (headBytes d).length) D tail sibs ∧
+      c.nextSibling ctx = .ok (c'.current, c') :=
+  nextSibling_posAt ctx d kids sibs hok off hsib D tail htail c hc
+
+/-- **`tree_eq`.** `entries_tree(None)?.root()` followed by the complete recursion over
+`children()` reports the root entry and then exactly its descendants in depth-first order, with
+their offsets, depths, tags and children flags: the tree view reproduces the encoded tree
+(whatever follows the root's subtree in the unit). -/
+theorem tree_eq (ctx : Ctx) (d : Node) (kids sibs : Forest) (hok : ForestOK ctx (.node d kids sibs))
+    (tail : Bytes) (off fuel : Nat) (hfuel : count kids + 1 < fuel) :
+    ∃ es, es.map Entry.item =
+        ⟨off, 0, d.tag, d.children⟩ ::
+          (if d.children then (listing (off + (headBytes d).length) 1 kids).filter (fun i => !i.isNull) else []) ∧
+      treeAll ctx fuel (Tree.new (encode (.node d kids sibs) ++ tail) off) = (es, .ok ()) :=
+  treeAll_unit ctx d kids sibs hok tail off fuel hfuel
+
+/-- the children iterator at any level: a complete traversal of a child list reports exactly its
+entries and leaves the tree on the list's terminating null entry -/
+theorem tree_children_eq (ctx : Ctx) (g : Forest) (hok : ForestOK ctx g) (off : Nat) (D : Int) (rest : Bytes)
+    (t : Tree) (hraw : t.raw = ⟨encode g ++ 0 :: rest, off + (encode g ++ 0 :: rest).length, D⟩)
+    (hm : TreeMode t D) (fuel : Nat) (hf : count g < fuel) :
+    ∃ es, es.map Entry.item = (listing off D g).filter (fun i => !i.isNull) ∧
+      treeChildren ctx fuel t D =
+        ((es, .ok ()), Tree.mk t.root ⟨rest, off + (encode g ++ 0 :: rest).length, D - 1⟩
+          ⟨off + (encode g).length, D, 0, false, []⟩) :=
+  treeChildren_forest ctx g hok off D rest t hraw hm fuel hf
 
 /-! ## (3) positioned reads -/
 
@@ -171,5 +219,81 @@ theorem header_sizes (e : Endian) (sect : Sect) (off : Nat) (h : Header) (entrie
       UnitHeader.rootOffset, Unit.encodeUnit, unitLength, List.length_append, encodeLength_length,
       encodeBody_length, hu] <;>
     refine ⟨by first | omega | trivial, by first | omega | trivial, trivial, by first | omega | trivial⟩
+
+/-! ## non-vacuity: a concrete unit that satisfies the hypotheses -/
+
+namespace Example
+def enc : Encoding := { endian := .little, addressSize := 8, format := .dwarf32, version := 4 }
+/-- code 1: `DW_TAG_compile_unit`, children, `DW_AT_sibling` as `DW_FORM_ref4`;
+code 2: `DW_TAG_base_type`, no children, `DW_AT_byte_size` as `DW_FORM_data1` -/
+def a1 : Abbreviation := { code := 1, tag := 0x11, hasChildren := true, attrs := [⟨0x01, .ref4, 0⟩] }
+def a2 : Abbreviation := { code := 2, tag := 0x24, hasChildren := false, attrs := [⟨0x0b, .data1, 0⟩] }
+def ctx : Ctx := { enc := enc, abbrevs := { vec := [a1, a2], map := [] } }
+def root : Node := { code := 1, tag := 0x11, children := true, attrBytes := [21, 0, 0, 0] }
+def leaf (n : UInt8) : Node := { code := 2, tag := 0x24, children := false, attrBytes := [n] }
+/-- a root at unit offset 11 with two children; its `DW_AT_sibling` points behind its subtree (21) -/
+def forest : Forest := .node root (.node (leaf 4) .nil (.node (leaf 8) .nil .nil)) .nil
+end Example
+open Example
+
+theorem example_attrs1 (rest : Bytes) :
+    readAttributes enc a1.attrs (root.attrBytes ++ rest) = .ok ([⟨.unitRef, .num 21⟩], rest) := by
+  have h := C03.form_value_roundtrip_partial enc ⟨0x01, .ref4, 0⟩ (.num 21) [21, 0, 0, 0] rest
+    (by decide) (by decide) (by intro h; cases h)
+  simp only [a1, root, readAttributes, h, Out.bind_ok, Out.pure_eq]
+  rfl
+
+theorem example_attrs2 (n : UInt8) (rest : Bytes) :
+    readAttributes enc a2.attrs ((leaf n).attrBytes ++ rest) = .ok ([⟨.data1, .num n.toNat⟩], rest) := by
+  have h := C03.form_value_roundtrip_partial enc ⟨0x0b, .data1, 0⟩ (.num n.toNat) [n] rest
+    (by
+      have : n.toNat < 2 ^ (8 * 1) := UInt8.toNat_lt n
+      simp [Spec.Attr.encodeForm, Spec.Attr.encFixed, this, enc, Ints.toBytes, Ints.leBytes])
+    (by decide) (by intro h; cases h)
+  simp only [a2, leaf, readAttributes, h, Out.bind_ok, Out.pure_eq]
+  rfl
+
+theorem example_forestOK : ForestOK ctx forest := by
+  refine ⟨⟨by decide, by decide, by decide, a1, by decide, rfl, rfl, _, example_attrs1⟩, ?_, trivial⟩
+  refine ⟨⟨by decide, by decide, by decide, a2, by decide, rfl, rfl, _, example_attrs2 4⟩, trivial, ?_⟩
+  exact ⟨⟨by decide, by decide, by decide, a2, by decide, rfl, rfl, _, example_attrs2 8⟩, trivial, trivial⟩
+
+theorem example_sibOK : SibOK ctx 11 forest := by
+  have hkids : SibOK ctx (11 + (headBytes root).length) (.node (leaf 4) .nil (.node (leaf 8) .nil .nil)) := by
+    simp [SibOK, leaf]
+  refine ⟨fun _ => Or.inr ?_, hkids, trivial⟩
+  intro a vs depth hget hattrs
+  have ha : a = a1 := by
+    have : ctx.abbrevs.get root.code = some a1 := by decide
+    rw [this] at hget; exact (Option.some.inj hget).symm
+  subst ha
+  have hv := hattrs []
+  have he := example_attrs1 []
+  change readAttributes enc a1.attrs (root.attrBytes ++ []) = _ at hv
+  rw [he] at hv
+  simp only [Out.ok.injEq, Prod.mk.injEq, and_true] at hv
+  subst hv
+  have h21 : (if root.children = true then
+        11 + (headBytes root).length + (encode (.node (leaf 4) .nil (.node (leaf 8) .nil .nil))).length + 1
+      else 11 + (headBytes root).length) = 21 := by decide
+  rw [h21]
+  simp [Entry.sibling, a1, normalise, rules]
+
+example : encodeUnit forest 1 = [1, 21, 0, 0, 0, 2, 4, 2, 8, 0, 0] := by decide
+example : listingUnit 11 forest 1 =
+    [⟨11, 0, 0x11, true⟩, ⟨16, 1, 0x24, false⟩, ⟨18, 1, 0x24, false⟩, ⟨20, 1, 0, false⟩, ⟨21, 0, 0, false⟩] := by
+  decide
+/-- so `raw_is_dfs`, `dfs_cursor_forest`, `sibling_eq` (through the fast path) and `tree_eq` apply -/
+example : ∃ es, es.map Entry.item = (listingUnit 11 forest 1).filter (fun i => !i.isNull) ∧
+    siblingAll ctx 100 (Cursor.new (encodeUnit forest 1) 11) = (es, .ok ()) :=
+  sibling_eq ctx forest example_forestOK 1 11 example_sibOK 100 (by decide)
+-- an abbreviation table with codes out of order, one of them huge, and a duplicate
+example : (Abbreviations.parse [0x02, 0x24, 0x00, 0x0b, 0x0b, 0, 0, 0x80, 0x80, 0x80, 0x80, 0x10, 0x11, 0x01, 0, 0,
+    0x01, 0x2e, 0x00, 0, 0, 0]).map (fun t => ((t.get 2).map (·.tag), (t.get (2 ^ 32)).map (·.tag), (t.get 1).map (·.tag), (t.get 3).map (·.tag)))
+    = .ok (some 0x24, some 0x11, some 0x2e, none) := by decide
+example : Abbreviations.parse [0x02, 0x24, 0x00, 0, 0, 0x01, 0x2e, 0x00, 0, 0, 0x02, 0x11, 0x01, 0, 0, 0]
+    = .err .rDuplicateAbbreviationCode := by decide
+example : Valid ⟨.dwarf64, 5, 8, .splitType 0x1122334455667788 0x30, 0x40⟩ .debugInfo 100 := by
+  simp [Valid, Format.wordSize]
 
 end Gimli.Props.C02
